@@ -15,8 +15,11 @@
              semantics is property C16 (and C17 for the two sorts being stable sorts); it is
              a stated dependency of C18, not re-proved here.
    * next  : allocator for element handles (NewElement / PushBack create a fresh element).
-   * mtx   : whether a mutex is installed (Synchronize/WithLock).  Sequentially it has no
-             effect; the concurrent reading is Props/C18.v C18_sync (LockedObject instance).
+   * mtx   : the mutex slot `atomic[*sync.Mutex]`: None = no mutex, Some l = the mutex with identity l
+             (driver-supplied mutexes have positive ids, the ones Synchronize() allocates negative ids,
+             0 is the nil pointer).  The slot is WRITE-ONCE (atomic.Set: CompareAndSwap(nil,in) ||
+             CompareAndSwap(in,in)).  Sequentially the mutex has no effect on results; the concurrent
+             reading is Props/C18.v C18_sync (LockedObject instance).
 
    Every function below is a transcription of the Go method of the same name, in statement
    order, including lock()'s lazy `init` of a nil hash and DeleteCheck's deferred delete. *)
@@ -98,9 +101,10 @@ Definition perm_b (a b : list Z) : bool :=
   forallb (fun x => Nat.eqb (count a x) (count b x)) (a ++ b).
 
 (* ------------------------------------------------------------------ the Set *)
-Record set := mkSet { s_hash : option hmap; s_list : option store; s_next : handle; s_mtx : bool }.
+Definition lockid := Z.
+Record set := mkSet { s_hash : option hmap; s_list : option store; s_next : handle; s_mtx : option lockid }.
 
-Definition empty_set : set := mkSet None None 0 false.            (* &dt.Set[T]{} *)
+Definition empty_set : set := mkSet None None 0 None.            (* &dt.Set[T]{} *)
 
 Definition hm (s : set) : hmap := match s_hash s with Some m => m | None => [] end.
 Definition is_ordered (s : set) : bool := match s_list s with Some _ => true | None => false end.
@@ -112,7 +116,23 @@ Definition s_lock (s : set) : set :=
   | None => mkSet (Some []) (s_list s) (s_next s) (s_mtx s)
   end.
 
-Definition synchronize (s : set) : set := mkSet (s_hash s) (s_list s) (s_next s) true.
+(* atomic.Set(in): val.CompareAndSwap(nil, in) || val.CompareAndSwap(in, in) -- installs `in` only into
+   an empty slot; reports true when the slot was empty or already held `in`; never replaces a mutex. *)
+Definition mtx_set (cur : option lockid) (l : lockid) : option lockid * bool :=
+  match cur with
+  | None => (Some l, true)
+  | Some c => (cur, Z.eqb c l)
+  end.
+
+(* Synchronize(): s.mtx.Set(&sync.Mutex{}) -- l is the identity of the freshly allocated mutex *)
+Definition synchronize (s : set) (l : lockid) : set :=
+  mkSet (s_hash s) (s_list s) (s_next s) (fst (mtx_set (s_mtx s) l)).
+
+(* WithLock(mtx): Invariant(mtx != nil); Invariant(s.mtx.Set(mtx)). The bool is "panicked". *)
+Definition with_lock (s : set) (l : lockid) : set * bool :=
+  if Z.eqb l 0 then (s, true)
+  else let '(m, ok) := mtx_set (s_mtx s) l in
+       (mkSet (s_hash s) (s_list s) (s_next s) m, negb ok).
 
 (* Order(): lock; if list != nil return; Invariant(len(hash)==0) -- panics otherwise; list = &List{} .
    The bool is "panicked". *)
@@ -244,21 +264,23 @@ Inductive op :=
 | OPopulate (t : nat) (vs : list Z)
 | OExtend (t u : nat) (choice : list Z)          (* T[t].Extend(T[u]); choice = delivery order of T[u] if unordered *)
 | OOrder (t : nat)
-| OSync (t : nat)
+| OSync (t : nat) (l : lockid)                  (* Synchronize(); l = identity of the mutex it allocates (negative) *)
+| OWithLock (t : nat) (l : lockid)              (* WithLock(m_l); l = 0 is nil *)
+| OLockProbe (t : nat)                         (* which driver mutex (positive id) the set's methods lock; 0 = none of them *)
 | OSortQuick (t : nat) (k : Z) (choice : list Z) (* choice = key order used by forceSetupOrdered, if it ran *)
 | OSortMerge (t : nat) (k : Z) (choice : list Z)
 | OIter (t : nat)
 | OEqual (t u : nat)
 | OJSON (t u : nat) (choice : list Z)            (* T[t].UnmarshalJSON(T[u].MarshalJSON()) *)
 | OUnmarshal (t : nat) (items : list (option Z)) (* malformed stream *)
-| OReset (t : nat) (ordered sync : bool).        (* T[t] = &Set{}; Order()?; Synchronize()? *)
+| OReset (t : nat) (ordered : bool) (l : lockid). (* T[t] = &Set{}; Order()?; Synchronize()? (l <> 0: with mutex id l) *)
 
 Inductive res := RUnit | RBool (b : bool) | RLen (n : Z) | RSeq (l : list Z) | RPanic | RBad.
 
 Definition target (o : op) : nat :=
   match o with
   | OAdd t _ | OAddCheck t _ | ODelete t _ | ODeleteCheck t _ | OCheck t _ | OLen t
-  | OPopulate t _ | OExtend t _ _ | OOrder t | OSync t | OSortQuick t _ _ | OSortMerge t _ _
+  | OPopulate t _ | OExtend t _ _ | OOrder t | OSync t _ | OWithLock t _ | OLockProbe t | OSortQuick t _ _ | OSortMerge t _ _
   | OIter t | OEqual t _ | OJSON t _ _ | OUnmarshal t _ | OReset t _ _ => t
   end.
 
@@ -278,7 +300,11 @@ Definition step (T : tbl) (o : op) : tbl * res :=
       | None => (T, RBad)
       end
   | OOrder t => let '(s, p) := order (T t) in (tset T t s, if p then RPanic else RUnit)
-  | OSync t => (tset T t (synchronize (T t)), RUnit)
+  | OSync t l => (tset T t (synchronize (T t) l), RUnit)
+  | OWithLock t l => let '(s, p) := with_lock (T t) l in (tset T t s, if p then RPanic else RUnit)
+  | OLockProbe t =>
+      let s := s_lock (T t) in                      (* the probe calls Len() *)
+      (tset T t s, RLen (match s_mtx s with Some l => if Z.ltb 0 l then l else 0 | None => 0 end))
   | OSortQuick t k choice | OSortMerge t k choice =>
       match sort (lt_of k) choice (T t) with
       | Some s => (tset T t s, RUnit)
@@ -295,10 +321,10 @@ Definition step (T : tbl) (o : op) : tbl * res :=
       | None => (T, RBad)
       end
   | OUnmarshal t items => let '(s, p) := unmarshal (T t) items in (tset T t s, if p then RPanic else RUnit)
-  | OReset t ordered sync =>
+  | OReset t ordered l =>
       let s0 := empty_set in
       let s1 := if ordered then fst (order s0) else s0 in
-      let s2 := if sync then synchronize s1 else s1 in
+      let s2 := if Z.eqb l 0 then s1 else synchronize s1 l in
       (tset T t s2, RUnit)
   end.
 
